@@ -169,6 +169,12 @@ func oracle(fn, arg string) (res string) {
 			return "!"
 		}
 		return "+" + i.String()
+	case fn == "bfexp":
+		x, ok := new(big.Float).SetString(arg)
+		if !ok {
+			return "!"
+		}
+		return "+" + strconv.Itoa(x.MantExp(nil))
 	case fn == "nf":
 		i, err := strconv.ParseInt(arg, 10, 64)
 		if err != nil {
